@@ -169,7 +169,7 @@ func ruleR21_3(c *Check) {
 	for _, s := range f.Sites(selReturn()) {
 		for _, g := range w.Guards(f, s) {
 			if call, ok := unparenSel(g.Cond); ok && !g.Val && !g.Implicit {
-				if c2, ok := unparen(call.X).(*ast.CallExpr); ok && w.Callee(c2) == types.Object(w.Func("table.MergeIterator.bigger")) && w.fieldOf(g.Cond) == valid {
+				if c2, ok := unparen(w.Origin(f, call.X)).(*ast.CallExpr); ok && w.Callee(c2) == types.Object(w.Func("table.MergeIterator.bigger")) && w.fieldOf(g.Cond) == valid {
 					okEarly = len(w.Guards(f, s)) == 1
 				}
 			}
